@@ -5,6 +5,7 @@
 package ctxio
 
 // helper goroutine protocol: 0 none, 1 running, 2 joined
+//@ ghost gNewConn int
 //@ ghost helper int
 //@ ghost gDlFail bool
 //@ ghost gCancelled bool
@@ -24,7 +25,9 @@ package ctxio
 
 //@ func NewConn {C02 C10 C18 | safety: C10}
 //@   requires [nn] c != nil
-//@   modifies bufLo, bufHi
+//@   modifies bufLo, bufHi, gNewConn
+//@   ghostset at new(Conn)#1 : gNewConn = gNewConn + 1
+//@   ensures [count C02] gNewConn == old(gNewConn) + 1
 //@   ensures [fresh C02 C10 C18] result != nil && fresh(result) && cstruct(result) && result.conn == c && cpos(result)
 
 //@ func (*Conn).NetConn {C18}
